@@ -469,6 +469,8 @@ class MQTTProtocol(MQTTBaseProtocol):
         '''
         if self._version == v31:
             request.encoded[0] |=  (dup << 3)   # set the dup flag
+        else:
+            request.encoded[0] &= 0xF7          # 3.1.1 reserves the bit, also for a request first sent under 3.1
         interval = request.interval() + 0.25*len(self.factory.windowSubscribe[self.addr])
         request.alarm = self.callLater(interval, self._subscribeError, request)
         log.debug("==> {packet:7} (id={request.msgId:04x} dup={dup})", packet="SUBSCRIBE", request=request, dup=dup)
@@ -482,6 +484,8 @@ class MQTTProtocol(MQTTBaseProtocol):
         '''
         if self._version == v31:
             request.encoded[0] |=  (dup << 3)   # set the dup flag
+        else:
+            request.encoded[0] &= 0xF7          # 3.1.1 reserves the bit, also for a request first sent under 3.1
         interval = request.interval() + 0.25*len(self.factory.windowUnsubscribe[self.addr])
         request.alarm = self.callLater(interval, self._unsubscribeError, request)
         log.debug("==> {packet:7} (id={request.msgId:04x} dup={dup})", packet="UNSUBSCRIBE", request=request, dup=dup)
@@ -580,6 +584,8 @@ class MQTTProtocol(MQTTBaseProtocol):
         if self._version == v31:
             reply.encoded[0] |=  (dup << 3)   # set the dup flag
             reply.dup = dup
+        else:
+            reply.encoded[0] &= 0xF7          # 3.1.1 reserves the bit, also for a PUBREL first sent under 3.1
         reply.alarm = self.callLater(reply.interval(), self._pubrelError, reply)
         log.debug("==> {packet:7} (id={reply.msgId:04x} dup={dup})", packet="PUBREL", reply=reply, dup=dup)
         self.transport.write(str(reply.encoded) if PY2 else bytes(reply.encoded))
